@@ -193,9 +193,9 @@ def cidr_ref(net, peer):
     if n.version == 4:
         m = ip.ipv4_mapped
         return m is not None and m in n
-    # IPv6 network, IPv4 peer: only meaningful inside the v4-mapped range
-    base_mapped = n.network_address.ipv4_mapped is not None
-    if not base_mapped:
+    # IPv6 network, IPv4 peer: the peer counts as its IPv4-mapped form, for networks written
+    # with an IPv4-mapped base address (::ffff:a.b.c.d/n)
+    if ipaddress.ip_address(net.split("/")[0].strip("[]")).ipv4_mapped is None:
         return False
     return ipaddress.ip_address(b"\0" * 10 + b"\xff\xff" + pk) in n
 
@@ -437,6 +437,8 @@ def rand_ops(rng, cfg, nops):
         elif x < 0.90 and nslots < 4:
             ops.append("s")
             nslots += 1
+        elif x < 0.94:
+            ops.append("h,%d" % s)
         else:
             ops.append("p,%d,%s" % (s, rng.choice(["012", "345"])))
     return ops
@@ -479,62 +481,76 @@ def shapes(k):
 
 
 SMALL_CONDS = [("H", '$HTTP["host"]', None, "==", "h1"), ("U", '$HTTP["url"]', None, "=^", "/a"),
-               ("U", '$HTTP["url"]', None, "=$", ".php"), ("H", '$HTTP["host"]', None, "!=", "h2"),
-               ("C", '$HTTP["scheme"]', None, "==", "https")]
-
-
-def small_configs(k, rng, variants):
-    out = []
-    for shp in shapes(k):
-        for _ in range(variants):
-            nodes = []
-            used = {}
-            ok = True
-            for (par, prev) in shp:
-                sibs = used.setdefault(par, set())
-                choices = [c for c in SMALL_CONDS if (c[1], c[4]) not in sibs]
-                if prev is not None and rng.random() < 0.3 and True:
-                    nodes.append(Node(None, []))
-                    continue
-                c = rng.choice(choices)
-                sibs.add((c[1], c[4]))
-                nodes.append(Node(Cond(*c), []))
-            # a plain else must be the last branch of its chain
-            for j, (par, prev) in enumerate(shp):
-                if prev is not None and nodes[prev - 1].cond is None:
-                    ok = False
-            if not ok:
-                continue
-            # rebuild nesting
-            roots = []
-            for j, (par, prev) in enumerate(shp):
-                nd = nodes[j]
-                vid = j + 1
-                nd.dirs = [(0, vid)] if j % 2 == 0 else [(3, vid)]
-                cont = roots if par == 0 else nodes[par - 1].chains
-                if prev is None:
-                    cont.append([nd])
-                else:
-                    for ch in cont:
-                        if ch and ch[-1] is nodes[prev - 1]:
-                            ch.append(nd)
-            out.append(Config([], roots))
-    return out
-
-
+               ("C", '$HTTP["scheme"]', None, "==", "https"), ("U", '$HTTP["url"]', None, "=$", ".php"),
+               ("H", '$HTTP["host"]', None, "!=", "h2")]
 SMALL_ATTRS = [attr_tok("H", "h1"), attr_tok("H", "h2"), attr_tok("U", "/a.php"), attr_tok("U", "/b"),
                attr_tok("C", "https")]
 
 
-def small_lines(ctx, k, seqlen, variants):
+def build_config(shp, assign):
+    """config from a shape [(parent, prev)] and one condition (or None = plain else) per node;
+    None if the assignment is not a valid configuration"""
+    nodes = []
+    sibs = {}
+    for j, ((par, prev), c) in enumerate(zip(shp, assign)):
+        if c is None:
+            if prev is None:
+                return None                       # else needs a previous branch
+            nodes.append(Node(None, []))
+        else:
+            if (c[1], c[4]) in sibs.setdefault(par, set()):
+                return None                       # same key twice in one block: blocks would merge
+            sibs[par].add((c[1], c[4]))
+            nodes.append(Node(Cond(*c), []))
+        if prev is not None and nodes[prev - 1].cond is None:
+            return None                           # nothing may follow a plain else
+    roots = []
+    for j, (par, prev) in enumerate(shp):
+        nd = nodes[j]
+        nd.dirs = [(0, j + 1)] if j % 2 == 0 else [(0, j + 1), (3, j + 1)]
+        cont = roots if par == 0 else nodes[par - 1].chains
+        if prev is None:
+            cont.append([nd])
+        else:
+            for ch in cont:
+                if ch and ch[-1] is nodes[prev - 1]:
+                    ch.append(nd)
+    return Config([], roots)
+
+
+def small_configs(k, pool, rng=None, variants=None):
+    """all shapes with k blocks x (all | `variants` random) assignments of conditions from pool"""
+    out = []
+    choices = list(pool) + [None]
+    for shp in shapes(k):
+        if variants is None:
+            assigns = itertools.product(choices, repeat=k)
+        else:
+            assigns = [[rng.choice(choices if prev is not None else pool) for (_, prev) in shp]
+                       for _ in range(variants * 3)]
+        got = 0
+        for assign in assigns:
+            cfg = build_config(shp, assign)
+            if cfg is None:
+                continue
+            out.append(cfg)
+            got += 1
+            if variants is not None and got >= variants:
+                break
+    return out
+
+
+def small_lines(cfgs, seqlen):
     lines = []
-    for cfg in small_configs(k, ctx.rng, variants):
+    first = "n,0,%s,%s" % (ALL, ";".join([attr_tok("H", "h2"), attr_tok("U", "/b"), attr_tok("C", "http")]))
+    for cfg in cfgs:
         remember(cfg)
         n = len(cfg.nodes)
-        alpha = ["k,0,%d" % i for i in range(1, n)] + ["a,0," + a for a in SMALL_ATTRS] + ["z,0", "p,0,012"]
-        first = "n,0,%s,%s" % (ALL, ";".join([attr_tok("H", "h2"), attr_tok("U", "/b"), attr_tok("C", "http")]))
+        used = set(cfg.comp_of(i) for i in range(1, n))
+        alpha = ["k,0,%d" % i for i in range(1, n)] + \
+                ["a,0," + a for a in SMALL_ATTRS if a[0] in used] + ["z,0", "p,0,012", "h,0"]
         for seq in itertools.product(alpha, repeat=seqlen):
-            if seq[-1][0] not in "kp":      # keep sequences that end in an observation
+            if seq[-1][0] not in "kph":     # keep sequences that end in an observation
                 continue
             lines.append(make_line(cfg, [first] + list(seq)))
     return lines
@@ -613,8 +629,8 @@ def oracle(line, out):
                             "for the current request attributes" % (i, got, want))
             elif got and not want:
                 return "config_check_cond(node %d) true although the block does not apply" % i
-        elif k == "p":
-            dirs = [int(c) for c in f[2]]
+        elif k in "ph":
+            dirs = [int(c) for c in f[2]] if k == "p" else [0, 1, 2]
             vals = [int(x) for x in ob[1:ob.index("=")].split(".")]
             if all(cfg.needed(i) <= sl["valid"] for i in range(1, n)):
                 for d, got in zip(dirs, vals):
@@ -626,43 +642,32 @@ def oracle(line, out):
 
 
 def classify(line, out):
+    """coverage key: tree size / depth / chain length, operation kinds with results, cache values seen"""
     if out in ("bad-op", "config-error", "<crash>"):
         return out
     o = out.split(" ")
     sep = o.index("/")
     n = int(o[0])
-    nodes = o[1:sep]
-    depth = 0
-    chain = 0
-    conds = set()
     par = {}
-    for nd in nodes:
+    chain = 0
+    for nd in o[2:sep]:
         f = nd.split(":")
         par[int(f[0])] = int(f[1])
-        conds.add(f[5] + f[6])
         if f[2] != "-":
             chain += 1
+    depth = 0
     for i in par:
         d, j = 0, i
         while j:
             d += 1
             j = par[j]
         depth = max(depth, d)
-    kinds = set()
+    kinds, vals = set(), set()
     for ob in o[sep + 1:]:
-        k = ob[0]
-        if k == "k":
-            i = None
-            kinds.add(ob[:2])
-        else:
-            kinds.add(k)
-    # cache states seen after checks: which result values occur
-    vals = set()
-    for ob in o[sep + 1:]:
-        c = ob.split("=")[-1]
-        vals.update(c[0::2])
-    return "n%d:d%d:c%d:%s:%s:%s" % (min(n, 6), min(depth, 3), min(chain, 3), "".join(sorted(kinds)),
-                                     "".join(sorted(vals)), ",".join(sorted(conds))[:40])
+        kinds.add(ob[:2] if ob[0] == "k" else ob[0])
+        vals.update(ob.split("=")[-1])
+    return "n%d:d%d:c%d:%s:%s" % (min(n, 7), min(depth, 3), min(chain, 3), "".join(sorted(kinds)),
+                                  "".join(sorted(vals - {"-"})))
 
 
 # ----------------------------------------------------------------------------
@@ -706,76 +711,101 @@ def remember(cfg):
     return cfg
 
 
-def gen(ctx):
+def gen_small(ctx):
+    """exhaustive small scope: every tree shape x every assignment of conditions x every op
+    sequence of the given length; yields batches of lines"""
+    P2, P3 = SMALL_CONDS[:2], SMALL_CONDS[:3]
+    if ctx.quick:
+        plan = [(1, P3, None, 4), (2, P3, None, 4), (3, P3, None, 3)]
+    else:
+        plan = [(1, SMALL_CONDS, None, 5), (2, P3, None, 5), (3, P3, None, 4), (4, SMALL_CONDS, 6, 3)]
+    for k, pool, variants, seqlen in plan:
+        cfgs = small_configs(k, pool, ctx.rng, variants)
+        ctx.notes.append("small scope: %d blocks, %d configurations (%s condition assignments from %d "
+                         "conditions + else, all shapes), all op sequences of length %d ending in an "
+                         "observation" % (k, len(cfgs), "all" if variants is None else "%d random" % variants,
+                                          len(pool), seqlen))
+        step = max(1, 200000 // max(1, len(small_lines(cfgs[:1], seqlen))))
+        for i in range(0, len(cfgs), step):
+            yield small_lines(cfgs[i:i + step], seqlen)
+            _cfg_cache.clear()
+
+
+def gen_random(ctx):
+    """random larger trees, long op sequences"""
     rng = ctx.rng
-    quick = ctx.quick
-    lines_small, lines_rand, lines_cidr = [], [], []
-    # 1. exhaustive small scope
-    for k, seqlen, variants in ([(1, 3, 3), (2, 3, 2), (3, 3, 1)] if quick else
-                                [(1, 4, 4), (2, 4, 2), (3, 4, 1), (4, 3, 1)]):
-        lines_small += small_lines(ctx, k, seqlen, variants)
-    # 2. random larger trees, long op sequences
-    nrand = 12000 if quick else 150000
-    for _ in range(nrand):
-        focus = rng.random()
-        if focus < 0.35:
-            comps = rng.sample(list(ALL), 2)
-        elif focus < 0.6:
-            comps = rng.sample(list(ALL), 3)
-        else:
-            comps = list(ALL)
-        cfg = remember(rand_config(rng, rng.choice([3, 5, 8, 12]), comps))
-        lines_rand.append(make_line(cfg, rand_ops(rng, cfg, rng.choice([6, 12, 25]))))
-    # 3. CIDR / host:port matrix: every configured network against every peer
+    nrand = 12000 if ctx.quick else 150000
+    for start in range(0, nrand, 50000):
+        lines = []
+        for _ in range(min(50000, nrand - start)):
+            focus = rng.random()
+            if focus < 0.35:
+                comps = rng.sample(list(ALL), 2)
+            elif focus < 0.6:
+                comps = rng.sample(list(ALL), 3)
+            else:
+                comps = list(ALL)
+            cfg = remember(rand_config(rng, rng.choice([3, 5, 8, 12]), comps))
+            lines.append(make_line(cfg, rand_ops(rng, cfg, rng.choice([6, 12, 25]))))
+        yield lines
+        _cfg_cache.clear()
+
+
+def gen_match(ctx):
+    """CIDR / host:port matrix: every configured network against every peer"""
+    rng = ctx.rng
+    lines = []
     for net in NETS:
         for op in ("==", "!="):
             cfg = remember(Config([], [[Node(Cond("I", '$HTTP["remoteip"]', None, op, net), [(0, 1)])]]))
             ops = []
             for p in PEERS:
                 ops += ["a,0," + attr_tok("I", p), "k,0,1"]
-            lines_cidr.append(make_line(cfg, ["n,0,%s,-" % ALL] + ops))
+            lines.append(make_line(cfg, ["n,0,%s,-" % ALL] + ops))
     for d in LIT["H"] + ["[::1]:80", "[::1]"]:
         for op in ("==", "!="):
             cfg = remember(Config([], [[Node(Cond("H", '$HTTP["host"]', None, op, d), [(0, 1)])]]))
             ops = []
             for h in ATTR["H"] + ["[::1]:80", "[::1]", "[::1]:8080"]:
                 ops += ["a,0," + attr_tok("H", h), "k,0,1"]
-            lines_cidr.append(make_line(cfg, ["n,0,%s,-" % ALL] + ops))
-    # random networks and peers, including every prefix length
-    for _ in range(400 if quick else 4000):
+            lines.append(make_line(cfg, ["n,0,%s,-" % ALL] + ops))
+    # random networks and peers, every prefix length; peers differ from the base in one bit
+    for _ in range(600 if ctx.quick else 6000):
         if rng.random() < 0.5:
             base = bytes(rng.randrange(256) for _ in range(4))
             bits = rng.randint(1, 32)
             net = "%s/%d" % (ntop(4, base), bits)
             peers = [base]
-            for _ in range(6):
+            for bit in set([bits - 1, min(bits, 31), rng.randrange(32), rng.randrange(32)]):
                 b = bytearray(base)
-                bit = rng.randrange(32)
                 b[bit // 8] ^= 0x80 >> (bit % 8)
                 peers.append(bytes(b))
-            ptoks = [ntop(4, p) for p in peers] + [ntop(6, b"\0" * 10 + b"\xff\xff" + peers[1])]
+            ptoks = [ntop(4, p) for p in peers] + [ntop(6, b"\0" * 10 + b"\xff\xff" + p) for p in peers[:3]]
         else:
-            mapped = rng.random() < 0.3
+            mapped = rng.random() < 0.4
             base = (b"\0" * 10 + b"\xff\xff" + bytes(rng.randrange(256) for _ in range(4))) if mapped \
                 else bytes([0x20 | rng.randrange(16)] + [rng.randrange(256) for _ in range(15)])
-            bits = rng.randint(96 if mapped else 1, 128)
+            bits = rng.randint(90 if mapped else 1, 128)
             net = "%s/%d" % (ntop(6, base), bits)
             peers = [base]
-            for _ in range(6):
+            lo = 96 if mapped else 0
+            for bit in set([max(lo, bits - 1), min(bits, 127), rng.randrange(lo, 128), rng.randrange(lo, 128)]):
                 b = bytearray(base)
-                bit = rng.randrange(96 if mapped else 0, 128)
                 b[bit // 8] ^= 0x80 >> (bit % 8)
                 peers.append(bytes(b))
             ptoks = [ntop(6, p) for p in peers]
             if mapped:
-                ptoks += [ntop(4, p[12:]) for p in peers[:3]]
+                ptoks += [ntop(4, p[12:]) for p in peers]
+            else:
+                ptoks.append("10.1.2.3")
         cfg = remember(Config([], [[Node(Cond("I", '$HTTP["remoteip"]', None, rng.choice(["==", "!="]), net),
                                          [(0, 1)])]]))
         ops = []
         for p in ptoks:
             ops += ["a,0," + attr_tok("I", p), "k,0,1"]
-        lines_cidr.append(make_line(cfg, ["n,0,%s,-" % ALL] + ops))
-    return lines_small, lines_rand, lines_cidr
+        lines.append(make_line(cfg, ["n,0,%s,-" % ALL] + ops))
+    yield lines
+    _cfg_cache.clear()
 
 
 def run(ctx):
@@ -783,19 +813,19 @@ def run(ctx):
     if exe is None:
         ctx.broken.append({"kind": "harness-build", "names": ["h_cond"], "log": (err or "")[-3000:]})
         return
-    small, rnd, cidr = gen(ctx)
-    ctx.differential("cond(exhaustive small trees x op sequences)", [exe], "cond", small, oracle, classify)
-    ctx.differential("cond(random trees, long op sequences)", [exe], "cond", rnd, oracle, classify)
-    ctx.differential("cond(CIDR / host:port matrix)", [exe], "cond", cidr, oracle, classify)
+    for name, g in (("cond(exhaustive small trees x op sequences)", gen_small),
+                    ("cond(random trees, long op sequences)", gen_random),
+                    ("cond(CIDR / host:port matrix)", gen_match)):
+        for lines in g(ctx):
+            ctx.differential(name, [exe], "cond", lines, oracle, classify)
+            del lines
     ctx.exhaustive = False
     ctx.rule = ("cases: (generated lighttpd.conf parsed by the real parser, operation sequence on one "
                 "connection); distinct = (tree size, depth, chain length, operation kinds and results, cache "
                 "values, condition kinds) tuples observed")
-    ctx.notes.append("small scope: every parent/else-chain shape with <= %d conditional blocks x every op "
-                     "sequence of the stated length over {check each node, 5 attribute rewrites + reset_item, "
-                     "full reset, patch}; random: trees up to 12 blocks over all 8 condition fields, all 6 "
-                     "operators, sequences up to 25 ops with up to 4 request slots (h2 streams)"
-                     % (3 if ctx.quick else 4))
+    ctx.notes.append("small-scope op alphabet: check each block, rewrite host/url/scheme (+ reset_item), full "
+                     "reset, core patch_config; random: trees up to 12 blocks over all 8 condition fields, all 6 "
+                     "operators, sequences up to 25 ops with up to 4 request slots (h2 streams)")
     ctx.assumptions += [
         "PCRE2 is external: the model uses its own matcher on the regex subset the generator emits",
         "attribute values are ASCII (PCRE2_UTF subject validation is outside the model)",
